@@ -398,6 +398,12 @@ fn long_chain_family(plan: &Plan) -> RunResult {
         let gt = want || !c.node.bc.is_golden_ticket_count_valid(tip_hash, want, false, false);
         match crate::util::guarded(|| c.extend(txs, gt, dt)) {
             Ok(Ok(i)) => Some(i),
+            Ok(Err(e)) => {
+                if std::env::var("VERIF_DEBUG").is_ok() {
+                    eprintln!("long family: producer refused block {}: {}", c.tip_rec().id + 1, e);
+                }
+                None
+            }
             _ => None,
         }
     };
@@ -405,8 +411,9 @@ fn long_chain_family(plan: &Plan) -> RunResult {
         let i = match grow(&mut c, &mut rng, 2300) {
             Some(i) => i,
             None => {
-                // the producer refused its own block (C07's subject)
-                r.probe("long_producer_refused");
+                // the producer refused its own block (C07's subject; with the treasury payout multiplier
+                // above 1 its recorded finding)
+                r.probe(if atr_multiplier(&c.node.bc, gp) > 1 { "long_producer_refused_atr_multiplier_above_1" } else { "long_producer_refused_other" });
                 break;
             }
         };
